@@ -1,4 +1,5 @@
 import DEvo.Run.History
+import DEvo.Generated.Tables
 
 /-! # C08 — each evolution is applied and recorded exactly once -/
 
@@ -196,5 +197,10 @@ theorem C08_cex_mark_then_install :
     let s1 := stepH s0 (.markApplied "a" ["e1"])
     let s2 := stepH s1 (.run [⟨"a", ["e1", "e2"]⟩] true)
     keys s2 = [("a", "e1"), ("a", "e1"), ("a", "e2")] := by decide
+
+/-- **tie of `newRecords` to the source**: `Evolver.evolve` collects the `new_evolutions` of every task of every
+task class, unconditionally, into the one list it hands to `_save_project_sig` — what `stepH (.run apps true)`
+records.  Read from the source on every run (Generated/Tables.lean). -/
+theorem C08_source_collects_all : DEvo.Generated.collectsAllNewEvolutions = true := by decide
 
 end DEvo.Props.C08
